@@ -148,3 +148,14 @@
                     r is Some ==> self@ % (vstd::arithmetic::power2::pow2(r->0 as nat) as int) == 0 && !crate::ispec::bit_of(self@, r->0 as nat) == false
         { unimplemented!() }
     }
+
+    impl ShlSpecImpl<usize> for BigInt {
+        open spec fn obeys_shl_spec() -> bool { true }
+        open spec fn shl_req(self, rhs: usize) -> bool { true }
+        open spec fn shl_spec(self, rhs: usize) -> BigInt { mk(self@ * vstd::arithmetic::power2::pow2(rhs as nat)) }
+    }
+    impl core::ops::Shl<usize> for BigInt {
+        type Output = BigInt;
+        #[verifier::external_body]
+        fn shl(self, rhs: usize) -> (r: BigInt) { unimplemented!() }
+    }
